@@ -425,10 +425,16 @@ fn mix(a: u64, b: u64) -> u64 {
 /// confirmed by a second, solitary run with a 10x deadline.
 fn eval(check: &dyn Check, worker: &mut Option<Worker>, choice: &[u8], describe: bool, inconclusive: &mut Vec<String>) -> Outcome {
     if !check.isolated() || std::env::var("VERIF_NO_ISOLATION").is_ok() {
-        return match catch(|| check.run(choice, describe)) {
+        let t0 = Instant::now();
+        let r = match catch(|| check.run(choice, describe)) {
             Ok(o) => o,
             Err(p) => Outcome::fail(panic_sig(&p), p),
         };
+        let dt = t0.elapsed();
+        if dt.as_secs() >= 20 {
+            eprintln!("SLOW-CASE {} {:.1}s choice={}", check.id(), dt.as_secs_f64(), hex(choice));
+        }
+        return r;
     }
     match iso_run(worker, check.id(), choice, describe, check.deadline()) {
         IsoResult::Outcome(o) => o,
